@@ -123,6 +123,109 @@ def guess_kind(ex, v):
     raise Unsupported(f'no element kind for {v!r}')
 
 
+def mark_byte(ex, t):
+    """remember that the z3 term t is known to lie in 0..255 (a fact already in the path condition)"""
+    ex.__dict__.setdefault('known_bytes', set()).add(t.get_id())
+    ex.keep.append(t)
+
+
+def is_known_byte(ex, v):
+    if isinstance(v, bool):
+        return False
+    if isinstance(v, int):
+        return 0 <= v <= 255
+    if not (isinstance(v, Sym) and v.k == 'int'):
+        return False
+    if v.t.get_id() in ex.__dict__.get('known_bytes', ()):
+        return True
+    r = term_range(ex, v.t, 0)
+    if r is not None and r[0] >= 0 and r[1] <= 255:
+        mark_byte(ex, v.t)
+        return True
+    return False
+
+
+def term_factor(t, depth):
+    """a positive integer that provably divides the term (1 when nothing is known)"""
+    import math
+
+    if depth > 12:
+        return 1
+    if z3.is_int_value(t):
+        return abs(t.as_long())  # 0 divides... gcd(0, c) == c: right for the use above
+    if not z3.is_app(t):
+        return 1
+    k = t.decl().kind()
+    ch = t.children()
+    if k == z3.Z3_OP_MUL:
+        f = 1
+        for c in ch:
+            f *= term_factor(c, depth + 1) if z3.is_int_value(c) or c.decl().kind() in (z3.Z3_OP_MUL, z3.Z3_OP_ADD) else 1
+        return f
+    if k == z3.Z3_OP_ADD:
+        f = 0
+        for c in ch:
+            f = math.gcd(f, term_factor(c, depth + 1))
+        return f if f > 0 else 1
+    return 1
+
+
+def term_range(ex, t, depth):
+    """cheap syntactic interval of an integer term built from known bytes and constants
+    (sound: None when nothing is known)"""
+    if depth > 12:
+        return None
+    if z3.is_int_value(t):
+        c = t.as_long()
+        return (c, c)
+    if t.get_id() in ex.__dict__.get('known_bytes', ()):
+        return (0, 255)
+    if not z3.is_app(t):
+        return None
+    k = t.decl().kind()
+    ch = t.children()
+    if k == z3.Z3_OP_BV2INT or t.decl().name() in ('bv2int', 'ubv_to_int', 'bv2nat'):
+        return (0, (1 << ch[0].size()) - 1)
+    if k in (z3.Z3_OP_MOD, z3.Z3_OP_IDIV) and len(ch) == 2 and z3.is_int_value(ch[1]) and ch[1].as_long() > 0:
+        c = ch[1].as_long()
+        r = term_range(ex, ch[0], depth + 1)
+        if k == z3.Z3_OP_MOD:
+            if r is not None and r[0] >= 0 and r[1] < c:
+                return r
+            import math
+
+            f = math.gcd(term_factor(ch[0], 0), c)  # x a multiple of f and f | c  =>  x mod c a multiple of f
+            return (0, c - f)
+        if r is None:
+            return None
+        return (r[0] // c, r[1] // c)
+    if k == z3.Z3_OP_ADD:
+        lo = hi = 0
+        for c in ch:
+            r = term_range(ex, c, depth + 1)
+            if r is None:
+                return None
+            lo, hi = lo + r[0], hi + r[1]
+        return (lo, hi)
+    if k == z3.Z3_OP_SUB and len(ch) == 2:
+        a, b = term_range(ex, ch[0], depth + 1), term_range(ex, ch[1], depth + 1)
+        if a is None or b is None:
+            return None
+        return (a[0] - b[1], a[1] - b[0])
+    if k == z3.Z3_OP_MUL and len(ch) == 2:
+        a, b = term_range(ex, ch[0], depth + 1), term_range(ex, ch[1], depth + 1)
+        if a is None or b is None:
+            return None
+        ps = [a[0] * b[0], a[0] * b[1], a[1] * b[0], a[1] * b[1]]
+        return (min(ps), max(ps))
+    if k == z3.Z3_OP_ITE:
+        a, b = term_range(ex, ch[1], depth + 1), term_range(ex, ch[2], depth + 1)
+        if a is None or b is None:
+            return None
+        return (min(a[0], b[0]), max(a[1], b[1]))
+    return None
+
+
 def read_byte(ex, seq_t, idx_t):
     """element of a byte string.  The read is *named*: a fresh constant b with
     b == nth(s, i) (definition) and 0 <= b <= 255 (Python's bytes invariant, a
@@ -148,13 +251,16 @@ def read_byte(ex, seq_t, idx_t):
         if direct is not None:
             r = mk_int(direct)
             if isinstance(r, Sym):
-                ex.add_def(z3.And(r.t >= 0, r.t <= 255))
+                if not is_known_byte(ex, r):
+                    ex.add_def(z3.And(r.t >= 0, r.t <= 255))
+                    mark_byte(ex, r.t)
             cache[key] = r
             ex.keep.append((seq_t, idx_t))
             return r
     b = z3.Int(ex.fresh_name('byte'))
     ex.add_def(b == seq_t[idx_t])
     ex.add_def(z3.And(b >= 0, b <= 255))
+    mark_byte(ex, b)
     r = Sym(b, 'int')
     cache[key] = r
     ex.keep.append((seq_t, idx_t))
@@ -380,7 +486,31 @@ def seq_get(ex, seq, i):
     return elem_to_value(ex, seq.t[idx], seq.k[1])
 
 
+def reverse_bytes(ex, o):
+    """o[::-1] for a byte string: element-wise for a concrete length, otherwise a fresh
+    string defined by its length and its elements (definition, not an assumption)"""
+    b = ex.as_bytes_value(o)
+    if isinstance(b, bytes):
+        return b[::-1]
+    n = conc_int(z3.Length(b.t))
+    if n is not None and n <= 512:
+        if n == 0:
+            return b''
+        units = [z3.Unit(zint(read_byte(ex, b.t, z3.IntVal(i)))) for i in reversed(range(n))]
+        return mk_bytes(units[0] if n == 1 else z3.Concat(*units))
+    r = ex.fresh_sym('bytes', 'rev')
+    i = z3.Int(ex.fresh_name('ri'))
+    ex.add_def(z3.Length(r.t) == z3.Length(b.t))
+    ex.add_def(z3.ForAll([i], z3.Implies(z3.And(i >= 0, i < z3.Length(b.t)), r.t[i] == b.t[z3.Length(b.t) - 1 - i])))
+    return r
+
+
 def slice_of(ex, o, sl):
+    if plain(sl.step) == -1 and sl.lo is None and sl.hi is None and is_byteslike(ex, o):
+        r = reverse_bytes(ex, o)
+        if isinstance(o, Ref):
+            return ex.alloc(BAObj(r))
+        return r
     if isinstance(o, Ref):
         ho = ex.obj(o)
         if isinstance(ho, BAObj):
@@ -990,7 +1120,143 @@ def _conc_binop(op, a, b):
     raise Unsupported(f'operator {t.__name__}')
 
 
+# ---------------------------------------------------------------------------
+# bit-field view of integers assembled from bytes (exact; keeps big-integer packing code
+# such as `(int.from_bytes(b, 'big') << 1 ^ c).to_bytes(17, 'big')` within linear arithmetic over
+# single bytes): an int carries a list of disjoint fields (term, bit offset, width) with
+# 0 <= term < 2**width and value == sum(term << offset); shifts, masks with constants and
+# to_bytes act field-wise.  The ordinary arithmetic term of the value is always kept as well.
+# ---------------------------------------------------------------------------
+
+
+def bf_get(ex, v):
+    if isinstance(v, Sym) and v.k == 'int':
+        return ex.__dict__.get('bitfields', {}).get(v.t.get_id())
+    return None
+
+
+def bf_set(ex, v, fields):
+    if isinstance(v, Sym) and v.k == 'int' and fields is not None and len(fields) <= 4096:
+        ex.__dict__.setdefault('bitfields', {})[v.t.get_id()] = fields
+        ex.keep.append(v.t)
+    return v
+
+
+def bf_shift(fields, k):
+    """fields of value * 2**k (k >= 0) or value // 2**(-k) (k < 0)"""
+    if k >= 0:
+        return [(t, off + k, w) for (t, off, w) in fields]
+    k = -k
+    out = []
+    for t, off, w in fields:
+        if off + w <= k:
+            continue
+        if off >= k:
+            out.append((t, off - k, w))
+        else:
+            out.append((z3.simplify(t / (1 << (k - off))), 0, off + w - k))
+    return out
+
+
+def bf_trunc(fields, n):
+    """fields of value % 2**n"""
+    out = []
+    for t, off, w in fields:
+        if off >= n:
+            continue
+        if off + w <= n:
+            out.append((t, off, w))
+        else:
+            out.append((z3.simplify(t % (1 << (n - off))), off, n - off))
+    return out
+
+
+def bf_const_op(fields, op, c):
+    """fields of value <op> c for a constant c >= 0 and op in & | ^"""
+    top = max([off + w for (_, off, w) in fields] + [c.bit_length(), 1])
+    full = []
+    pos = 0
+    for t, off, w in sorted(fields, key=lambda f: f[1]):
+        if off > pos:
+            full.append((z3.IntVal(0), pos, off - pos))
+        full.append((t, off, w))
+        pos = off + w
+    if pos < top:
+        full.append((z3.IntVal(0), pos, top - pos))
+    out = []
+    for t, off, w in full:
+        cf = (c >> off) & ((1 << w) - 1)
+        andt = mask_and(t, cf)
+        if op is ast.BitAnd:
+            nt = andt
+        elif op is ast.BitOr:
+            nt = t + cf - andt
+        else:
+            nt = t + cf - 2 * andt
+        nt = z3.simplify(nt)
+        if z3.is_int_value(nt) and nt.as_long() == 0:
+            continue
+        out.append((nt, off, w))
+    return out
+
+
+def bf_byte(fields, j):
+    """z3 term of byte j (bits 8j..8j+7) of the value"""
+    lo_b, hi_b = 8 * j, 8 * j + 8
+    parts = []
+    for t, off, w in fields:
+        lo, hi = max(off, lo_b), min(off + w, hi_b)
+        if lo >= hi:
+            continue
+        piece = t
+        if lo > off:
+            piece = piece / (1 << (lo - off))
+        if hi < off + w:
+            piece = piece % (1 << (hi - lo))
+        if lo > lo_b:
+            piece = piece * (1 << (lo - lo_b))
+        parts.append(piece)
+    if not parts:
+        return z3.IntVal(0)
+    return z3.simplify(parts[0] if len(parts) == 1 else z3.Sum(*parts))
+
+
+def _pow2(c):
+    return c is not None and c > 0 and (c & (c - 1)) == 0
+
+
 def int_binop(ex, op, a, b):
+    r = _int_binop(ex, op, a, b)
+    if type(op) in (ast.BitAnd, ast.BitOr, ast.BitXor) and isinstance(r, Sym) and not ex.quant and is_known_byte(ex, a) and is_known_byte(ex, b):
+        mark_byte(ex, r.t)  # bit operations of two bytes stay within a byte
+    try:
+        t = type(op)
+        fa = bf_get(ex, a)
+        cb = b if isinstance(b, int) and not isinstance(b, bool) else None
+        if fa is None and t in (ast.Mult, ast.BitAnd, ast.BitOr, ast.BitXor) and bf_get(ex, b) is not None and isinstance(a, int) and not isinstance(a, bool):
+            fa, cb = bf_get(ex, b), a
+        if fa is not None and cb is not None and isinstance(r, Sym):
+            nf = None
+            if t is ast.LShift and cb >= 0:
+                nf = bf_shift(fa, cb)
+            elif t is ast.Mult and _pow2(cb):
+                nf = bf_shift(fa, cb.bit_length() - 1)
+            elif t is ast.RShift and cb >= 0:
+                nf = bf_shift(fa, -cb)
+            elif t is ast.FloorDiv and _pow2(cb):
+                nf = bf_shift(fa, -(cb.bit_length() - 1))
+            elif t is ast.Mod and _pow2(cb):
+                nf = bf_trunc(fa, cb.bit_length() - 1)
+            elif t in (ast.BitAnd, ast.BitOr, ast.BitXor) and cb >= 0:
+                nf = bf_const_op(fa, t, cb)
+            if nf is not None:
+                bf_set(ex, r, nf)
+    except Unsupported:
+        pass
+    return r
+
+
+def _int_binop(ex, op, a, b):
     x, y = zint(a), zint(b)
     t = type(op)
     cb = b if isinstance(b, int) else None
@@ -1081,6 +1347,15 @@ def bv_op(ex, t, a, b):
     (a `range` side obligation decided inline), then go through bit-vectors.
     Disjoint-bits special case of | is turned into +."""
     x, y = zint(a), zint(b)
+    if not ex.quant and is_known_byte(ex, a) and is_known_byte(ex, b):
+        # two bytes: 8-bit vectors, the result is again a byte and gets its own name
+        bx, by = z3.Int2BV(x, 8), z3.Int2BV(y, 8)
+        r = {ast.BitOr: bx | by, ast.BitXor: bx ^ by, ast.BitAnd: bx & by}[t]
+        c = z3.Int(ex.fresh_name('bop'))
+        ex.add_def(c == z3.BV2Int(r, False))
+        ex.add_def(z3.And(c >= 0, c <= 255))
+        mark_byte(ex, c)
+        return Sym(c, 'int')
     # special case: (p * 2^k) | q  with 0 <= q < 2^k  ==  p*2^k + q.  Candidate k's come first
     # from the shifts that built the operands (tracked syntactically), then from a fixed list.
     if t is ast.BitOr:
